@@ -1,9 +1,10 @@
 // C16 replay for unit tuple_key_str (run only after a failed obligation of that unit or when the unit cannot be built:
 // it DECIDES between "the chunker's output changed" -- a concrete failing string is reported -- and "only the proof
 // broke" -- undecided).  Copied to tuple_key/tests/ of a scratch copy of /repo.  Bounded: every string of up to four
-// characters over a twelve-character alphabet (one-, two-, three- and four-byte UTF-8 sequences, with 0x00, 0x7f and
-// bytes having every low-bit pattern), 22621 strings, each compared with an independent bit-string reference of the
-// 7-bit chunking; then the encodings of the sorted strings must be sorted, strictly.
+// characters over a thirteen-character alphabet (one-, two-, three- and four-byte UTF-8 sequences, with 0x00, line feed,
+// 0x7f and bytes having every low-bit pattern), 30941 strings, plus 400 pseudo-random strings of 1..=3000 characters
+// (more than 256 chunks, several block sizes), each compared with an independent bit-string reference of the 7-bit
+// chunking and parsed back; then the encodings of the sorted strings must be sorted, strictly.
 use tuple_key::{Element, TupleKey};
 
 const MARK: &str = "C16-STR-REPLAY";
@@ -41,7 +42,7 @@ fn real(s: &str) -> Vec<u8> {
 #[test]
 fn c16_str_replay() {
     println!("{MARK}: start");
-    let alphabet = ['\0', '\u{1}', '@', 'a', '\u{7f}', '\u{80}', '\u{ff}', '\u{7ff}', '\u{800}', '\u{ffff}', '\u{10000}', '\u{10ffff}'];
+    let alphabet = ['\0', '\n', '\u{1}', '@', 'a', '\u{7f}', '\u{80}', '\u{ff}', '\u{7ff}', '\u{800}', '\u{ffff}', '\u{10000}', '\u{10ffff}'];
     let mut strings: Vec<String> = vec![String::new()];
     let mut frontier: Vec<String> = vec![String::new()];
     for _ in 0..4 {
@@ -56,6 +57,20 @@ fn c16_str_replay() {
         strings.extend(next.iter().cloned());
         frontier = next;
     }
+    // long strings: the chunk index passes 256 and 65536 bits, every residue of the length mod 7 occurs
+    let mut state = 0x9e3779b97f4a7c15u64;
+    let mut rnd = move || {
+        state = state.wrapping_mul(6364136223846793005).wrapping_add(1442695040888963407);
+        (state >> 33) as usize
+    };
+    for i in 0..400usize {
+        let len = 1 + if i < 200 { i * 3 } else { rnd() % 3000 };
+        let mut t = String::new();
+        for _ in 0..len {
+            t.push(alphabet[rnd() % alphabet.len()]);
+        }
+        strings.push(t);
+    }
     for s in strings.iter() {
         let got = real(s);
         let want = reference(s.as_bytes());
@@ -64,6 +79,7 @@ fn c16_str_replay() {
         assert_eq!(parsed.as_deref(), Ok(s.as_str()), "{MARK}: string with bytes {:?} does not parse back from {got:?}", s.as_bytes());
     }
     strings.sort_by(|a, b| a.as_bytes().cmp(b.as_bytes()));
+    strings.dedup();
     for w in strings.windows(2) {
         let (a, b) = (real(&w[0]), real(&w[1]));
         assert!(a < b, "{MARK}: {:?} < {:?} but their encodings {a:?} / {b:?} do not compare that way", w[0].as_bytes(), w[1].as_bytes());
